@@ -1,10 +1,18 @@
 #include "util/murmur_hash.hh"
 #include "util/file_piece.hh"
 
+#include <iostream>
+
 int main() {
   uint64_t sum = 0;
   for (util::StringPiece line : util::FilePiece(0)) {
     sum += util::MurmurHash64A(line.data(), line.size());
   }
   std::cout << sum << std::endl;
+  // std::cout never throws: a failed write only shows in the stream state.
+  if (!std::cout) {
+    std::cerr << "Error writing to stdout" << std::endl;
+    return 1;
+  }
+  return 0;
 }
